@@ -30,6 +30,9 @@ CHECKS = {
  "C15": dict(engine="sequence explorer + stdio process driver + in-process router", technique="exhaustive enumeration of all message sequences up to length m over a 70-template grammar of valid/invalid parameters, each executed against the real server binary over stdio and against the real router in-process; reference model of allowed document outcomes",
    text="After initialize/initialized/didOpen every sequence of <=m templates (invalid positions in every direction, reversed and mid-surrogate ranges, rejected-then-valid changes, unknown/closed/untitled/non-file URIs, watched-file events for existing and vanished paths, every request kind at valid/beyond/unknown targets) is sent to a fresh server process; oracle: process alive and exits 0 after shutdown/exit, every request id answered exactly once, canary answered, each document's text is an allowed outcome (applied as denoted under LSP leniency, or forgotten).",
    note="m=2 on the binary and in-process (quick), m=3 in-process plus change-heavy m=3 on the binary (thorough). Closed and file-watched documents are unconstrained in the text oracle.", ref="5/C15"),
+ "C16": dict(engine="schedule explorer E4 (cross-process, control socket) + sequential reference session", technique="stateless model checking of the real server binary under a controlled scheduler: all interleavings of the main loop's and the blocking tasks' yield points up to a preemption bound (iterative deviation bounding), every schedule on a fresh process; differential oracle against a sequential session of the same binary",
+   text="Hook H5/H6 make the main loop (document store updated / released, before / after apply_change) and every blocking task (start, store read, end) stop at yield points; the controller decides who runs, detects blocked threads physically (/proc thread states), and explores every schedule with <= b preemptions. Oracle: with all threads released the canary is answered (no deadlock), every request is answered exactly once with an error or the sequential session's answer for its version, final text = client's, last published diagnostics = those of the final text.",
+   note="b=1 on 4 scenarios (quick), b=2 on 6 scenarios (thorough). Salsa checkpoints inside tasks are not scheduling points (C12 covers them). The Spin closure of the design was cut (see DESIGN 8b).", ref="5/C16"),
  "C17": dict(engine="configuration enumerator + in-process router on real directory trees", technique="exhaustive enumeration of project-tree configurations x open orders through the real loader (didOpen on the real router, real files), against a reference model of Gleam's project layout",
    text="64 trees (registry-style dependency, path dependency, transitive dependency, direct dependency on the transitive one, nested package root, module in src/ vs test/, nested module directories, equal module names, free-standing file) x every open order of up to k documents: for every qualified call go-to-definition must land in a file the layout model allows (or nowhere), prepareRename must refuse build/packages symbols and accept local ones, the free-standing file must answer.",
    note="k=2 quick, k=3 thorough. Path dependencies without registry dependencies of their own. Paths compared after resolving '..'.", ref="5/C17"),
